@@ -4,14 +4,17 @@ import (
 	"context"
 	"fmt"
 	"io"
+	"net"
 	"net/http"
 	"os"
 	"strings"
 	"sync"
+	"sync/atomic"
 	"time"
 
 	"github.com/gorilla/websocket"
 
+	"github.com/andydunstall/piko/server/cluster"
 	"github.com/andydunstall/piko/server/config"
 	"verifharness/internal/e4"
 	"verifharness/internal/evid"
@@ -52,6 +55,13 @@ type c09Probe struct {
 	Present string        `json:"presentation"`
 }
 
+// vacuity bookkeeping: configurations under which the plainly valid token was
+// refused, and the number of accepted probes overall
+var (
+	c09ValidRefused = map[string]string{}
+	c09Accepted     int
+)
+
 var algs = []string{"HS256", "HS384", "HS512", "RS256", "RS384", "RS512", "ES256", "ES384", "ES512", "PS256", "none"}
 
 func c09Tokens(kc e4.KeyConfig, full bool) []e4.TokenDesc {
@@ -59,8 +69,8 @@ func c09Tokens(kc e4.KeyConfig, full bool) []e4.TokenDesc {
 	base := e4.ValidFor(kc)
 	// A: algorithm x signing key x tampering, valid claims
 	for _, a := range algs {
-		for _, k := range []string{"configured", "other", "pubpem-as-hmac"} {
-			if k == "pubpem-as-hmac" && !strings.HasPrefix(a, "HS") {
+		for _, k := range []string{"configured", "other", "pubpem-as-hmac", "empty"} {
+			if (k == "pubpem-as-hmac" || k == "empty") && !strings.HasPrefix(a, "HS") {
 				continue
 			}
 			for _, t := range []string{"none", "payload", "signature", "alg-swap", "drop-segment", "empty"} {
@@ -104,6 +114,17 @@ type c09Node struct {
 	ln    *e4.StampListener
 	dir   string
 	valid string
+
+	ghostLn   net.Listener
+	ghostHits atomic.Int64
+}
+
+func (n *c09Node) sentinelCount() int64 {
+	c := n.ghostHits.Load()
+	if n.ln != nil {
+		c += n.ln.Served.Load()
+	}
+	return c
 }
 
 func startC09Node(kc e4.KeyConfig) *c09Node {
@@ -120,17 +141,37 @@ func startC09Node(kc e4.KeyConfig) *c09Node {
 		evid.Fatal("start node %+v: %v", kc, err)
 	}
 	n := &c09Node{kc: kc, node: nd, dir: dir, valid: e4.ValidFor(kc).Mint()}
-	l, err := e4.Listen(context.Background(), nd.UpstreamAddr(), "e1", "sentinel", e4.ListenOpts{Token: n.valid})
-	if err != nil {
-		evid.Fatal("listen with a valid token failed under %+v: %v", kc, err)
+	// a sentinel upstream behind the proxy port, attached with a valid token.
+	// If even that is refused (the property does not forbid over-rejection)
+	// the must-refuse probes are still meaningful, only without a sentinel.
+	ctx, cancel := context.WithTimeout(context.Background(), 10*time.Second)
+	defer cancel()
+	if l, err := e4.Listen(ctx, nd.UpstreamAddr(), "e1", "sentinel", e4.ListenOpts{Token: n.valid}); err == nil {
+		n.ln = l
+		e4.WaitFor(10*time.Second, func() bool { return nd.State().LocalNode().Endpoints["e1"] == 1 })
 	}
-	n.ln = l
-	e4.WaitFor(10*time.Second, func() bool { return nd.State().LocalNode().Endpoints["e1"] == 1 })
+	// a "ghost" node whose admin address is a hit counter: the admin port's
+	// ?forward=<node> interception must not run before authentication either
+	gl, err := net.Listen("tcp", "127.0.0.1:0")
+	if err != nil {
+		evid.Fatal("ghost admin: %v", err)
+	}
+	n.ghostLn = gl
+	go func() {
+		_ = http.Serve(gl, http.HandlerFunc(func(w http.ResponseWriter, r *http.Request) {
+			n.ghostHits.Add(1)
+			w.WriteHeader(200)
+		}))
+	}()
+	nd.State().AddNode(&cluster.Node{ID: "ghost", Status: cluster.NodeStatusActive, ProxyAddr: "127.0.0.1:1", AdminAddr: gl.Addr().String()})
 	return n
 }
 
 func (n *c09Node) close() {
-	_ = n.ln.Ln.Shutdown()
+	if n.ln != nil {
+		_ = n.ln.Ln.Shutdown()
+	}
+	n.ghostLn.Close()
 	n.node.Stop()
 	os.RemoveAll(n.dir)
 }
@@ -148,7 +189,7 @@ func (n *c09Node) addr(port string) string {
 // probe sends one request; returns the status and whether the sentinel
 // upstream served anything because of it.
 func (n *c09Node) probe(p c09Probe, hdr map[string]string) (status int, sentinel bool, err error) {
-	before := n.ln.Served.Load()
+	before := n.sentinelCount()
 	path := p.Path
 	ws := strings.Contains(path, "/_piko/v1/tcp/") || strings.Contains(path, "/piko/v1/upstream/")
 	if ws {
@@ -184,7 +225,7 @@ func (n *c09Node) probe(p c09Probe, hdr map[string]string) (status int, sentinel
 		status = resp.StatusCode
 	}
 	// a served request increments the sentinel before the response returns
-	return status, n.ln.Served.Load() != before, nil
+	return status, n.sentinelCount() != before, nil
 }
 
 func routePath(path, nodeID string) string {
@@ -218,8 +259,14 @@ func c09Config(run *evid.Run, kc e4.KeyConfig, full bool, mu *sync.Mutex, evals,
 			// token is not a violation of it, but if the plainly valid token
 			// is refused the exploration is vacuous.
 			if fmt.Sprint(p.Token) == fmt.Sprint(e4.ValidFor(kc)) && (p.Present == "authorization" || p.Present == "x-piko-authorization") {
-				evid.Fatal("vacuous: the plainly valid token is refused: %s", desc)
+				mu.Lock()
+				c09ValidRefused[kc.Name+"/"+kc.Audience+"/"+kc.Issuer] = desc
+				mu.Unlock()
 			}
+		case expected && status != 401:
+			mu.Lock()
+			c09Accepted++
+			mu.Unlock()
 		case !expected && status != 401:
 			run.Violation("C09", "route-ran-without-valid-token", desc, map[string]any{"engine": "E4-C09", "probe": p})
 		case !expected && sentinel:
@@ -288,6 +335,22 @@ func c09Config(run *evid.Run, kc e4.KeyConfig, full bool, mu *sync.Mutex, evals,
 			p := c09Probe{Config: kc, Port: port, Method: r[0], Path: r[1], Token: valid, Present: "none"}
 			st, sen, err := n.probe(p, map[string]string{})
 			record(p, false, st, sen, err)
+			if port == "admin" {
+				// admin forwarding to another node (?forward=<id>) is a route too
+				sep := "?"
+				if strings.Contains(r[1], "?") {
+					sep = "&"
+				}
+				fp := r[1] + sep + "forward=ghost"
+				for _, d := range []e4.TokenDesc{wrong, reps[2], reps[4]} {
+					p := c09Probe{Config: kc, Port: port, Method: r[0], Path: fp, Token: d, Present: "authorization"}
+					st, sen, err := n.probe(p, pres[0].Header(d.Mint()))
+					record(p, false, st, sen, err)
+				}
+				p := c09Probe{Config: kc, Port: port, Method: r[0], Path: fp, Token: valid, Present: "none"}
+				st, sen, err := n.probe(p, map[string]string{})
+				record(p, false, st, sen, err)
+			}
 		}
 	}
 	mu.Lock()
@@ -334,6 +397,15 @@ func init() {
 			}(kc)
 		}
 		wg.Wait()
+		if c09Accepted == 0 {
+			evid.Fatal("vacuous: no probe at all was accepted (the plainly valid token is refused under every configuration: %v)", c09ValidRefused)
+		}
+		var vac []string
+		for k := range c09ValidRefused {
+			vac = append(vac, k)
+		}
+		run.Set("configurations_refusing_the_plain_valid_token", vac)
+		run.Set("accepted_probes", c09Accepted)
 		run.Set("evaluations", evals)
 		run.Set("distinct_nontrivial", nontrivial)
 		run.Set("key_configurations", len(cfgs))
